@@ -26,6 +26,9 @@
 //
 // SEMANTICS (one line per construct; [[e]] is the value of e in the current variable environment)
 //   integer literal n            : the integer n.          ∅ : {}.         Z : FAIL/F_INTSET (infinite)
+//   precondition                 : every global / function named in the expression or (transitively)
+//                                  in a called function's definition is in DataEnv, used or not;
+//                                  otherwise FAIL/F_MISSING (no interpretation to evaluate under).
 //   global X                     : its value in DataEnv.   local x : value bound by nearest binder,
 //                                  or, for a function parameter, [[argument expression]] in the
 //                                  caller's environment (substitution = call by name).
@@ -60,7 +63,7 @@
 //   may be undefined without making the whole undefined.  A quantifier is evaluated on ALL elements:
 //   it is decided if some element gives the deciding truth value, else FAIL if some element failed.
 //   EvalResult.sawFailure tells that SOME sub-evaluation performed by the oracle failed (class of
-//   the first one in firstFailClass).  The real interpreter enumerates domains in its own order and
+//   the first one in firstFailClass, all classes met in failMask).  The real interpreter enumerates domains in its own order and
 //   stops early, so the sound two-sided check is:
 //     real returned a value  =>  oracle kind is not FAIL and the values agree (Same / truth), unless
 //                                oracle failClass is F_LIMIT / F_OVERFLOW (oracle inconclusive);
@@ -109,6 +112,7 @@ struct EvalResult {
   int failClass{ F_NONE };  // kind == FAIL
   bool sawFailure{ false }; // some sub-evaluation failed (even if the result is defined)
   int firstFailClass{ F_NONE };
+  uint32_t failMask{ 0 };   // bit (1 << class) for every failure class met by a sub-evaluation
   uint32_t steps{ 0 };      // binder-body evaluations performed
 };
 
@@ -150,6 +154,7 @@ public:
   uint32_t steps{ 0 };
   bool sawFailure{ false };
   int firstFail{ F_NONE };
+  uint32_t failMask{ 0 };
 
   Evaluator(const DataEnv& env, uint32_t setLimit, uint32_t stepLimit)
     : env{ env }, setLimit{ setLimit }, stepLimit{ stepLimit } {}
@@ -159,9 +164,59 @@ public:
       if (root.ChildrenCount() != 2 || root(0).id != TokenID::ID_GLOBAL) {
         return Fail(F_MALFORMED);
       }
-      return Ev(root.Child(1), nullptr);
+      root = root.Child(1);
+    }
+    if (!NamesDefined(root, 0)) {
+      return Fail(F_MISSING);
     }
     return Ev(root, nullptr);
+  }
+
+  //! Interpretability precondition: every global mentioned by the expression, and by the bodies of
+  //  the functions it calls, has a value (wherever it occurs, evaluated or not).
+  bool NamesDefined(Cursor it, uint32_t depth) const {
+    if (it->id == TokenID::ID_GLOBAL || it->id == TokenID::ID_FUNCTION || it->id == TokenID::ID_PREDICATE) {
+      return it->data.IsText() && FindGlobal(it->data.ToText()) != nullptr;
+    }
+    Index first = 0;
+    if (it->id == TokenID::NT_FUNC_CALL && it.ChildrenCount() >= 1 && it(0).data.IsText()) {
+      const SyntaxTree* tree = FindFunction(it(0).data.ToText());
+      if (tree == nullptr || depth >= MAX_CALL_DEPTH) {
+        return false;
+      }
+      Cursor def = tree->Root();
+      if (def->id == TokenID::PUNC_DEFINE && def.ChildrenCount() == 2) {
+        def = def.Child(1);
+      }
+      if (def->id == TokenID::NT_FUNC_DEFINITION && def.ChildrenCount() == 2
+          && !NamesDefined(def.Child(1), depth + 1)) {  // the body; parameter domains are types only
+        return false;
+      }
+      first = 1;
+    }
+    for (Index i = first; i < it.ChildrenCount(); ++i) {
+      if (!NamesDefined(it.Child(i), depth)) {
+        return false;
+      }
+    }
+    return true;
+  }
+
+  const Value* FindGlobal(const std::string& name) const {
+    for (const auto& g : env.globals) {
+      if (g.first == name) {
+        return &g.second;
+      }
+    }
+    return nullptr;
+  }
+  const SyntaxTree* FindFunction(const std::string& name) const {
+    for (const auto& f : env.functions) {
+      if (f.first == name) {
+        return f.second;
+      }
+    }
+    return nullptr;
   }
 
 private:
@@ -171,6 +226,7 @@ private:
       sawFailure = true;
       firstFail = fc;
     }
+    failMask |= uint32_t{ 1 } << static_cast<uint32_t>(fc);
     return Refail(fc);
   }
   static R Refail(int fc) {
@@ -238,13 +294,8 @@ private:
     if (!it->data.IsText()) {
       return Fail(F_MALFORMED);
     }
-    const std::string& name = it->data.ToText();
-    for (const auto& g : env.globals) {
-      if (g.first == name) {
-        return Val(g.second);
-      }
-    }
-    return Fail(F_MISSING);
+    const Value* value = FindGlobal(it->data.ToText());
+    return value != nullptr ? Val(*value) : Fail(F_MISSING);
   }
 
   R Local(Cursor it, const Frame* fr) {
@@ -672,14 +723,7 @@ private:
 
   R Call(Cursor it, const Frame* fr) {
     if (!it(0).data.IsText()) return Fail(F_MALFORMED);
-    const std::string& name = it(0).data.ToText();
-    const SyntaxTree* tree = nullptr;
-    for (const auto& f : env.functions) {
-      if (f.first == name) {
-        tree = f.second;
-        break;
-      }
-    }
+    const SyntaxTree* tree = FindFunction(it(0).data.ToText());
     if (tree == nullptr) return Fail(F_MISSING);
     Cursor def = tree->Root();
     if (def->id == TokenID::PUNC_DEFINE) {
@@ -733,6 +777,7 @@ inline EvalResult Eval(
   }
   out.sawFailure = ev.sawFailure;
   out.firstFailClass = ev.firstFail;
+  out.failMask = ev.failMask;
   out.steps = ev.steps;
   return out;
 }
